@@ -134,8 +134,11 @@ func vCut3() {
 // sign with a key derived from an arbitrary seed, then verify in default and ZIP-215 mode.
 // variant: 0 pure, 1 ctx, 2 ph
 func vh_C03_sign_then_verify() {
-	if vTier() == 0 {
-		return // the monolithic composition is run in the thorough tier only; the quick tier proves it in pieces
+	if vTier() < 2 {
+		// not registered in any tier: the solvers return unknown on this monolithic composition (400 s, all back
+		// ends), and only bounds that run clean on the unchanged tree are registered.  Both tiers prove the
+		// composition in pieces (below).  Kept for experiments: run with a tier value of 2.
+		return
 	}
 	vCut3()
 	variant := vCase(0, 2)
